@@ -215,8 +215,9 @@ def r06_1(ctx, prog, crate):
             # the task run is the one just received
             cap = None
             for cn in x.captures or []:
-                if cn.lstrip("*") == "task":
-                    cap = prog.capture_operand(x, cn)
+                cp = prog.capture_operand(x, cn)
+                if cp and cp[1]["k"] in ("copy", "move") and "pool::Task" in cp[0].local_ty(cp[1]["p"]["l"]):
+                    cap = cp
             if cap:
                 srcs = cap[0].prov.op_src(cap[1])
                 ctx.check(any(s.kind == "call" and s.a == "std::sync::mpsc::Receiver::recv" for s in srcs), "R06.1", ["worker", "runs-received-task"],
